@@ -234,14 +234,15 @@ Lemma phaseA s0 : st_ret s0 = None ->
     (has_fp = true -> st_reg sA 0 5 = sp0 - ws /\ holds (st_mem sA) (sp0 - ws) ws (trunc ws (st_reg s0 0 5))) /\
     st_ret sA = None /\
     (forall x, sp0 <= x -> st_mem sA x = st_mem s0 x) /\
-    (forall k r, nth_error (rev gpl) k = Some r -> holds (st_mem sA) (sp0 - pp + ws * Z.of_nat k) ws (trunc ws (st_reg s0 0 r))).
+    (forall k r, nth_error (rev gpl) k = Some r -> holds (st_mem sA) (sp0 - pp + ws * Z.of_nat k) ws (trunc ws (st_reg s0 0 r))) /\
+    (forall x, x < sp0 - pp -> st_mem sA x = st_mem s0 x).
 Proof.
   intros Hret sp0. pose proof pp_eq as Hpp. pose proof (ws_pos a HX) as Hws. fold ws in Hws.
   assert (Hne : forall r, In r gpl -> r <> 4) by (intros r Hr; apply gpl_In in Hr; tauto).
   rewrite run_app. unfold seg_fp. destruct (fi_has_fp f) eqn:Hfp.
   - cbn [run]. rewrite step_push by auto. set (s0a := set_mem _ _).
     rewrite step_mov_rr by (cbn; auto). set (s0b := set_reg s0a 0 5 _).
-    destruct (run_pushes a HX gpl s0b ltac:(cbn; auto) Hne) as [sA [Hrun [Hsp [Hregs [Hr [Hmem Hslots]]]]]].
+    destruct (run_pushes a HX gpl s0b ltac:(cbn; auto) Hne) as [sA [Hrun [Hsp [Hregs [Hr [Hmem [Hslots Hlow]]]]]]].
     fold ws in Hsp, Hslots.
     assert (Hspb : st_reg s0b 0 4 = sp0 - ws) by (cbn; reflexivity).
     exists sA. split; [exact Hrun|]. splits.
@@ -261,14 +262,16 @@ Proof.
         destruct Hin as [_ [H4 [H5 _]]]. specialize (H5 Hfp).
         unfold s0b. rewrite reg_set_other_r by auto. unfold s0a. cbn [set_mem st_reg]. apply reg_set_other_r; auto. }
       rewrite E in Hslots. exact Hslots.
+    + intros x Hx. rewrite Hlow by (rewrite Hsp, Hspb; lia). cbn. apply store_other. fold sp0. left. nia.
   - cbn [run].
-    destruct (run_pushes a HX gpl s0 Hret Hne) as [sA [Hrun [Hsp [Hregs [Hr [Hmem Hslots]]]]]].
+    destruct (run_pushes a HX gpl s0 Hret Hne) as [sA [Hrun [Hsp [Hregs [Hr [Hmem [Hslots Hlow]]]]]]].
     fold ws in Hsp, Hslots. fold sp0 in Hsp, Hmem.
     exists sA. split; [exact Hrun|]. splits; auto.
     + rewrite Hsp, Hpp. lia.
     + discriminate.
     + intros k r Hk. specialize (Hslots k r Hk). rewrite Hsp in Hslots.
       replace (sp0 - pp + ws * Z.of_nat k) with (sp0 - ws * Z.of_nat (length gpl) + ws * Z.of_nat k) by lia. exact Hslots.
+    + intros x Hx. apply Hlow. rewrite Hsp. lia.
 Qed.
 
 (* ------------------------------------------------------------------ phase B: SA register, and sp, sub sp, DA slot *)
@@ -434,6 +437,7 @@ Record prolog_post (s0 s1 : state) : Prop := mk_pp {
             st_reg s1 g r = st_reg s0 g r;
   pq_sa : sa <> 4 -> st_reg s1 0 sa = x86_sa_value (st_reg s0 0 4);
   pq_mem_above : forall x, st_reg s0 0 4 <= x -> st_mem s1 x = st_mem s0 x;
+  pq_mem_below : forall x, x < x86_sp_body (st_reg s0 0 4) + fo_extra_off o -> st_mem s1 x = st_mem s0 x;
   pq_fp_slot : has_fp = true -> holds (st_mem s1) (st_reg s0 0 4 - ws) ws (trunc ws (st_reg s0 0 5));
   pq_push_slots : forall k r, nth_error (rev gpl) k = Some r ->
                   holds (st_mem s1) (st_reg s0 0 4 - pp + ws * Z.of_nat k) ws (trunc ws (st_reg s0 0 r));
@@ -476,7 +480,7 @@ Proof.
   pose proof layout_facts as [LF1 [LF2 [LF3 [LF4 [LF5 [LF6 [LF7 LF8]]]]]]].
   pose proof (ws_pos a HX) as Hws. fold ws in Hws.
   rewrite x86_prolog_segs. rewrite run_app, run_ibp by auto.
-  destruct (phaseA s0 Hret) as [sA [HrunA [HspA [HregsA [HfpA [HretA [HmemA HslotsA]]]]]]]. fold sp0 in HspA, HfpA, HmemA, HslotsA.
+  destruct (phaseA s0 Hret) as [sA [HrunA [HspA [HregsA [HfpA [HretA [HmemA [HslotsA HlowA]]]]]]]]. fold sp0 in HspA, HfpA, HmemA, HslotsA, HlowA.
   rewrite app_assoc, run_app, HrunA.
   destruct (run_seg_sa sA HretA) as [sS [HrunS [HregsS [HsaS [HmemS HretS]]]]].
   rewrite run_app, HrunS.
@@ -539,6 +543,9 @@ Proof.
   - intros g r H4 H5 Hs. rewrite Hregs3, Hregs2, HregsD, HregsP, HregsS, HregsA; auto.
   - rewrite Hregs3, Hregs2. exact HsaV.
   - intros x Hx. rewrite HmemHigh by lia. apply HmemA. lia.
+  - intros x Hx. change (fo_extra_off o) with off1 in Hx. rewrite HmemX by (left; exact Hx).
+    rewrite HmemDA; [apply HlowA; lia|].
+    destruct (Z.eq_dec (fo_da_off o) (-1)) as [E|E]; [left; auto|]. destruct (LF5 E) as [E1 [E2 _]]. right; left. lia.
   - intros Hfp. eapply holds_ext; [|apply HfpA; auto]. intros x Hx. apply HmemHigh.
     pose proof pp_eq as Hppe. rewrite Hfp in Hppe. assert (ws <= pp) by (rewrite Hppe; nia). lia.
   - intros k r Hk. eapply holds_ext; [|apply (HslotsA k r Hk)]. intros x Hx. apply HmemHigh. lia.
@@ -627,12 +634,15 @@ Theorem x86_epilog_correct s0 s1 s2 ra :
   exists s3, run a (x86_epilog f o) s2 = Some s3 /\
     st_ret s3 = Some ra /\ st_reg s3 0 4 = sp0 + ws + fo_callee_cleanup o /\
     (forall g r, Z.testbit (qget (cc_preserved cc) g) r = true ->
-                 trunc (qget (cc_srsize cc) g) (st_reg s3 g r) = trunc (qget (cc_srsize cc) g) (st_reg s0 g r)).
+                 trunc (qget (cc_srsize cc) g) (st_reg s3 g r) = trunc (qget (cc_srsize cc) g) (st_reg s0 g r)) /\
+    st_mem s3 = st_mem s2 /\
+    (forall g r, (g, r) <> (0, 4) -> (has_fp = true -> (g, r) <> (0, 5)) -> Z.testbit (saved_regs f o g) r = false ->
+                 st_reg s3 g r = st_reg s2 g r).
 Proof.
   intros sp0 PP BO Hra Hentry Hrange.
   pose proof layout_facts as [LF1 [LF2 [LF3 [LF4 [LF5 [LF6 [LF7 LF8]]]]]]].
   pose proof (ws_pos a HX) as Hws. fold ws in Hws. pose proof (wi_lsize f WF) as Hls.
-  destruct PP as [Qsp Qret Qfp Qregs Qsa Qabove Qfps Qpush Qda Qx1 Qx2 Qx3]. fold sp0 in Qsp, Qfp, Qsa, Qabove, Qfps, Qpush, Qda, Qx1, Qx2, Qx3.
+  destruct PP as [Qsp Qret Qfp Qregs Qsa Qabove Qbelow Qfps Qpush Qda Qx1 Qx2 Qx3]. fold sp0 in Qsp, Qfp, Qsa, Qabove, Qfps, Qpush, Qda, Qx1, Qx2, Qx3.
   destruct BO as [Bret Bsp Bfp Bregs Bmem]. fold sp0 in Bmem.
   set (spb := x86_sp_body sp0) in *.
   assert (Hbelow : spb + fo_stack_adj o <= sp0 - pp).
@@ -734,7 +744,8 @@ Proof.
   assert (F : exists t6, run a ((if fi_has_fp f then [(Mpop, [gpr a 5])] else []) ++ seg_ret) t5 = Some t6 /\
               st_ret t6 = Some ra /\ st_reg t6 0 4 = sp0 + ws + fo_callee_cleanup o /\
               (has_fp = true -> st_reg t6 0 5 = trunc ws (st_reg s0 0 5)) /\
-              (forall g r, (g, r) <> (0, 4) -> (has_fp = true -> (g, r) <> (0, 5)) -> st_reg t6 g r = st_reg t5 g r)).
+              (forall g r, (g, r) <> (0, 4) -> (has_fp = true -> (g, r) <> (0, 5)) -> st_reg t6 g r = st_reg t5 g r) /\
+              st_mem t6 = st_mem t5).
   { unfold seg_ret. destruct (fi_has_fp f) eqn:Hfp.
     - assert (Hs5 : st_reg t5 0 4 = sp0 - ws) by (rewrite Hsp5, Hsp4, Hppe; lia).
       assert (Hslot : holds (st_mem t5) (st_reg t5 0 4) ws (trunc ws (st_reg s0 0 5))).
@@ -750,13 +761,15 @@ Proof.
           | cbn [set_ret st_reg]; rewrite reg_set_same, Hs5'; lia
           | intros _; cbn [set_ret st_reg]; rewrite reg_set_other_r by lia; unfold t5'; apply reg_set_same
           | intros g r H4 H5; specialize (H5 eq_refl); cbn [set_ret st_reg]; rewrite reg_set_other by auto;
-            unfold t5'; rewrite !reg_set_other by auto; reflexivity ].
+            unfold t5'; rewrite !reg_set_other by auto; reflexivity
+          | reflexivity ].
       + rewrite (step_retn t5' ra _ Hret5' Hra3). eexists. split; [reflexivity|]. splits;
           [ reflexivity
           | cbn [set_ret st_reg]; rewrite reg_set_same, Hs5'; lia
           | intros _; cbn [set_ret st_reg]; rewrite reg_set_other_r by lia; unfold t5'; apply reg_set_same
           | intros g r H4 H5; specialize (H5 eq_refl); cbn [set_ret st_reg]; rewrite reg_set_other by auto;
-            unfold t5'; rewrite !reg_set_other by auto; reflexivity ].
+            unfold t5'; rewrite !reg_set_other by auto; reflexivity
+          | reflexivity ].
     - assert (Hs5 : st_reg t5 0 4 = sp0) by (rewrite Hsp5, Hsp4, Hppe; lia).
       assert (Hra3 : holds (st_mem t5) (st_reg t5 0 4) ws ra) by (rewrite Hs5; exact Hra2).
       cbn [app run]. destruct (Z.eqb_spec (fo_callee_cleanup o) 0) as [E|E].
@@ -764,13 +777,28 @@ Proof.
           [ reflexivity
           | cbn [set_ret st_reg]; rewrite reg_set_same, Hs5; lia
           | discriminate
-          | intros g r H4 _; cbn [set_ret st_reg]; apply reg_set_other; auto ].
+          | intros g r H4 _; cbn [set_ret st_reg]; apply reg_set_other; auto
+          | reflexivity ].
       + rewrite (step_retn _ _ _ Hret5 Hra3). eexists. split; [reflexivity|]. splits;
           [ reflexivity
           | cbn [set_ret st_reg]; rewrite reg_set_same, Hs5; lia
           | discriminate
-          | intros g r H4 _; cbn [set_ret st_reg]; apply reg_set_other; auto ]. }
-  destruct F as [t6 [Hrun6 [Hret6 [Hsp6 [Hbp6 Hr6]]]]].
+          | intros g r H4 _; cbn [set_ret st_reg]; apply reg_set_other; auto
+          | reflexivity ]. }
+  destruct F as [t6 [Hrun6 [Hret6 [Hsp6 [Hbp6 [Hr6 Hm6]]]]]].
+  (* frame conditions of the epilog: no memory write; only sp, (bp) and the saved registers change *)
+  assert (FM : st_mem t6 = st_mem s2) by (rewrite Hm6, Hm5; exact Hm_t4).
+  assert (FR : forall g r, (g, r) <> (0, 4) -> (has_fp = true -> (g, r) <> (0, 5)) -> Z.testbit (saved_regs f o g) r = false ->
+               st_reg t6 g r = st_reg s2 g r).
+  { intros g r N4 N5 Hns.
+    assert (NG : g = 0 -> ~ In r (rev gpl)).
+    { intros -> Hin. apply in_rev in Hin. apply gpl_In in Hin. destruct Hin as [_ [_ [_ Hin]]].
+      rewrite <- saved0_eq in Hin. congruence. }
+    rewrite Hr6, Hr5, Hr4 by auto.
+    rewrite Hr3 by (intros -> Hin; unfold L3 in Hin; apply bits_of_In in Hin; destruct Hin as [_ Hin]; congruence).
+    rewrite Hr2 by (intros -> Hin; unfold L2 in Hin; apply bits_of_In in Hin; destruct Hin as [_ Hin]; congruence).
+    rewrite Hr1 by (intros -> Hin; unfold L1 in Hin; apply bits_of_In in Hin; destruct Hin as [_ Hin]; congruence).
+    reflexivity. }
   rewrite Hrun6. exists t6. split; [reflexivity|]. splits; auto.
   (* callee-saved registers *)
   intros g r Hp.
@@ -837,7 +865,7 @@ Lemma x86_stack_args s0 s1 :
   (has_fp = true -> st_reg s1 0 5 + fo_sa_from_sa o = sp0 + ws) /\
   (fo_sa_from_sp o <> -1 -> st_reg s1 0 4 + fo_sa_from_sp o = sp0 + ws).
 Proof.
-  intros sp0 PP. destruct PP as [Qsp _ Qfp _ Qsa _ _ _ _ _ _ _]. fold sp0 in Qsp, Qfp, Qsa.
+  intros sp0 PP. destruct PP as [Qsp _ Qfp _ Qsa _ _ _ _ _ _ _ _]. fold sp0 in Qsp, Qfp, Qsa.
   destruct arch_consts as [_ [_ [Hlr [_ [_ _]]]]]. destruct x86_cc as [Hsz _].
   assert (Efs : fo_sa_from_sa o = if fi_has_fp f then ws + ws else ws + pp).
   { change (fo_sa_from_sa o) with (if fi_has_fp f && negb (fi_sa_fix f && has_link_reg a)
@@ -878,7 +906,62 @@ Proof.
   exists s1. split; [exact Hrun|].
   destruct (x86_stack_args s0 s1 PP) as [A1 [A2 A3]].
   splits; auto; try apply PP.
-  intros s2 BO. apply (x86_epilog_correct s0 s1 s2 ra PP BO Hra Hentry Hrange).
+  intros s2 BO. destruct (x86_epilog_correct s0 s1 s2 ra PP BO Hra Hentry Hrange) as [s3 [H1 [H2 [H3 [H4 _]]]]].
+  exists s3. splits; auto.
+Qed.
+
+(* what the prolog and the epilog must NOT change (same hypotheses as the round trip):
+   the prolog leaves the caller's memory (everything at or above the entry sp: return address, stack arguments, the caller's
+   frame) untouched, writes nothing below the extra-register save area (call area, local area, everything below the body sp:
+   its stores stay inside [body sp + extra_off, entry sp)), and changes no register except sp, bp (when it is the frame
+   pointer) and the SA register - arguments reach the body;
+   the epilog writes no memory at all and changes only sp, bp (frame pointer) and the registers the frame saved - return values
+   (and every other register the frame did not save) leave the function as the body left them *)
+Theorem x86_frame_conditions s0 ra :
+  let sp0 := st_reg s0 0 4 in
+  st_ret s0 = None -> holds (st_mem s0) sp0 ws ra ->
+  (sp0 + ws) mod cc_natural cc = 0 -> pp <= sp0 < 2 ^ (8 * ws) ->
+  exists s1, run a (x86_prolog f o) s0 = Some s1 /\
+    (forall x, sp0 <= x -> st_mem s1 x = st_mem s0 x) /\
+    (forall x, x < x86_sp_body sp0 + fo_extra_off o -> st_mem s1 x = st_mem s0 x) /\
+    (forall g r, (g, r) <> (0, 4) -> (has_fp = true -> (g, r) <> (0, 5)) -> (sa <> 4 -> (g, r) <> (0, sa)) ->
+                 st_reg s1 g r = st_reg s0 g r) /\
+    forall s2, body_ok s0 s1 s2 ->
+      exists s3, run a (x86_epilog f o) s2 = Some s3 /\
+        st_mem s3 = st_mem s2 /\
+        (forall g r, (g, r) <> (0, 4) -> (has_fp = true -> (g, r) <> (0, 5)) -> Z.testbit (saved_regs f o g) r = false ->
+                     st_reg s3 g r = st_reg s2 g r).
+Proof.
+  intros sp0 Hret Hra Hentry Hrange.
+  destruct (x86_prolog_correct s0 Hret Hentry) as [s1 [Hrun PP]].
+  exists s1. split; [exact Hrun|]. split; [apply PP|]. split; [apply PP|]. split; [apply PP|].
+  intros s2 BO. destruct (x86_epilog_correct s0 s1 s2 ra PP BO Hra Hentry Hrange) as [s3 [H1 [_ [_ [_ [H5 H6]]]]]].
+  exists s3. splits; auto.
+Qed.
+
+(* stack arguments END TO END: whatever the caller stored in the argument area (any offset >= 0 above the return address, any
+   width) is, after the prolog, readable with the caller's value at the addresses the frame REPORTS: [sp + sa_offset_from_sp]
+   (no dynamic alignment), [SA register + sa_offset_from_sa], [bp + sa_offset_from_sa] (frame pointer) *)
+Theorem x86_stack_args_intact s0 :
+  let sp0 := st_reg s0 0 4 in
+  st_ret s0 = None -> (sp0 + ws) mod cc_natural cc = 0 ->
+  exists s1, run a (x86_prolog f o) s0 = Some s1 /\
+    forall off n v, 0 <= off -> holds (st_mem s0) (sp0 + ws + off) n v ->
+      (fo_sa_from_sp o <> -1 -> holds (st_mem s1) (st_reg s1 0 4 + fo_sa_from_sp o + off) n v) /\
+      (sa <> 4 -> holds (st_mem s1) (st_reg s1 0 sa + fo_sa_from_sa o + off) n v) /\
+      (has_fp = true -> holds (st_mem s1) (st_reg s1 0 5 + fo_sa_from_sa o + off) n v).
+Proof.
+  intros sp0 Hret Hentry.
+  destruct (x86_prolog_correct s0 Hret Hentry) as [s1 [Hrun PP]].
+  exists s1. split; [exact Hrun|]. intros off n v Hoff Hh.
+  destruct (x86_stack_args s0 s1 PP) as [A1 [A2 A3]]. fold sp0 in A1, A2, A3.
+  pose proof (ws_pos a HX) as Hws. fold ws in Hws.
+  assert (K : holds (st_mem s1) (sp0 + ws + off) n v).
+  { eapply holds_ext; [|exact Hh]. intros x Hx. apply (pq_mem_above _ _ PP). fold sp0. lia. }
+  splits.
+  - intros H. rewrite (A3 H). exact K.
+  - intros H. rewrite (A1 H). exact K.
+  - intros H. rewrite (A2 H). exact K.
 Qed.
 
 End X86Frame.
